@@ -16,7 +16,7 @@
 From Coq Require Import List NArith Bool.
 From Coq Require String.
 Import String.StringSyntax.
-From Sccache Require Import Base.Sx Model.Lru Model.RoCache Model.DiskConfig.
+From Sccache Require Import Base.Sx Model.Lru Model.RoCache Model.RoConc Model.DiskConfig.
 Import ListNotations.
 Local Open Scope N_scope.
 Local Open Scope string_scope.
@@ -107,6 +107,58 @@ Definition run_ro (x : sx) : sx :=
   | _ => err "bad case"
   end.
 
+(* ---------- leg conc: simultaneous lookups right after a read-only cache was started ----------
+   case   = ( wrap cap ( (path size mtime cid) ... ) ( (get k) | (ppget k) ... ) ( thread-number ... ) scan ballast )
+            (the schedule is completed by scan+3 round-robin rounds; [ballast] only slows the real scan down)
+   result = ( (answer per thread) (answers of the same lookups repeated one after the other) listing-unchanged ) *)
+
+Definition dec_lookup (x : sx) : option op :=
+  match dec_item x with
+  | Some (IOp (RoCache.Get k)) => Some (RoCache.Get k)
+  | Some (IOp (PpGet k)) => Some (PpGet k)
+  | _ => None
+  end.
+
+Fixpoint dec_lookups (l : list sx) : option (list op) :=
+  match l with
+  | [] => Some []
+  | x :: r => match dec_lookup x, dec_lookups r with
+              | Some o, Some os => Some (o :: os)
+              | _, _ => None
+              end
+  end.
+
+Fixpoint seq_answers (d : dc) (ops : list op) : list out1 * dc :=
+  match ops with
+  | [] => ([], d)
+  | o :: r => let '(d', x) := step d o in let '(xs, d'') := seq_answers d' r in (x :: xs, d'')
+  end.
+
+Fixpoint listing_eqb (a b : fmap) : bool :=
+  match a, b with
+  | [], [] => true
+  | (k, (sz, _)) :: a', (k', (sz', _)) :: b' => bytes_eqb k k' && (sz =? sz') && listing_eqb a' b'
+  | _, _ => false
+  end.
+
+Definition run_conc (x : sx) : sx :=
+  match x with
+  | SL [w; c; SL files; SL lookups; SL sched; scan; _] =>
+      match dec_lookups lookups with
+      | Some ops =>
+          let d0 := initial false (get_bool w) (get_N c) 17 (map dec_file files) in
+          let n := List.length ops in
+          let sc := N.to_nat (get_N scan) in
+          let cs := crun ops sc (cstart d0 n) (map (fun t => N.to_nat (get_N t)) sched ++ rounds n (sc + 3)) in
+          let burst := map (fun i => match result_of cs i with Some r => enc_out r | None => sym "pending" end) (seq 0 n) in
+          let '(again, d2) := seq_answers (cdc cs) ops in
+          SL [ SL burst; SL (map enc_out again);
+               sbool (listing_eqb (fs d2) (fs d0) && (Nat.eqb (List.length (dirs d2)) (List.length (dirs d0)))) ]
+      | None => err "bad lookup"
+      end
+  | _ => err "bad case"
+  end.
+
 (* ---------- leg config ---------- *)
 
 Definition dec_opt {A} (f : sx -> A) (x : sx) : option A :=
@@ -159,4 +211,5 @@ Definition run_config (x : sx) : sx :=
 Definition dispatch (leg : list N) (x : sx) : sx :=
   if bytes_eqb leg (bs "ro") then run_ro x
   else if bytes_eqb leg (bs "config") then run_config x
+  else if bytes_eqb leg (bs "conc") then run_conc x
   else err "unknown leg".
